@@ -144,3 +144,44 @@ func H_C19_typeerrors() {
 	}
 	verif.Reach("end")
 }
+
+var c19RepeatQueries = []string{
+	"SELECT id, `tags::[first]` AS tag FROM t",
+	"SELECT id, `tags::[(1:2:3)]` AS tag FROM t",
+	"SELECT id, `tags::[0]::zz[` AS tag FROM t",
+	"SELECT id FROM `t::[zz]`",
+	"SELECT id, `o.b` AS v FROM t WHERE `tags::[9]` IS NULL",
+	"SELECT id FROM t WHERE id = vfault(id)",
+	"SELECT id, CHANGETYPE(tags, 'double') AS v FROM t",
+	"SELECT id FROM t ORDER BY `tags::[first]`",
+	"SELECT id, (SELECT q FROM `<-t::[nine]`) AS s FROM t",
+	"WITH c AS (SELECT id FROM `t::[x]`) SELECT id FROM c",
+}
+
+// H_C19_repeat: a failing query fails again, in the same way, when it is
+// issued again on an equal input, and a well-formed query issued after it
+// is not affected: failures leave nothing behind in process-wide state.
+func H_C19_repeat() {
+	qi := verif.Choose("query", len(c19RepeatQueries))
+	faultAt, faultCalls = 1, 0
+	RegisterFunction("vfault", faultFunc)
+	x := verif.F64("b")
+	verif.Assume(x == x)
+	doc := func() Map {
+		return Map{"t": []any{Map{"id": float64(1), "tags": []any{"a", "b"}, "o": Map{"b": x}}, Map{"id": float64(2), "tags": []any{"c"}, "o": Map{"b": x}}}}
+	}
+	r1, e1 := runQueryQuiet(doc(), c19RepeatQueries[qi])
+	faultCalls = 0
+	r2, e2 := runQueryQuiet(doc(), c19RepeatQueries[qi])
+	verif.Assert((e1 == nil) == (e2 == nil), "same-status-when-repeated")
+	if e1 != nil {
+		verif.Assert(len(r1) == 0 && len(r2) == 0, "no-rows-with-error")
+	} else {
+		verif.Assert(verif.Eq(r1, r2), "same-result-when-repeated")
+	}
+	// a healthy query over the same selectors' prefixes afterwards
+	faultAt = 0
+	got, err := runQueryQuiet(doc(), "SELECT id, tags, `tags[0]` AS f FROM t")
+	verif.Assert(err == nil && verif.Eq(got, []any{Map{"id": float64(1), "tags": []any{"a", "b"}, "f": "a"}, Map{"id": float64(2), "tags": []any{"c"}, "f": "c"}}), "later-query-unaffected")
+	verif.Reach("end")
+}
